@@ -16,7 +16,7 @@ import numpy as np
 import schedula as sh
 from . import (
     wrap_func, wrap_ufunc, Error, get_error, XlError, FoundError, Array,
-    parse_ranges, _text2num, replace_empty, raise_errors
+    parse_ranges, _text2num, replace_empty, raise_errors, _wildcards
 )
 from ..ranges import Ranges
 from ..cell import CELL
@@ -184,14 +184,12 @@ def xmatch(
 
     else:
         if lookup_value_type == 1 and any(v in lookup_value for v in '*~?'):
-            def sub(m):
-                return {'\\': '', '?': '.', '*': '.*'}[m.groups()[0]]
-
-            match = regex.compile(r'^%s$' % regex.sub(
-                r'(?<!\\\~)\\(?P<sub>[\*\?])|(?P<sub>\\)\~(?=\\[\*\?])',
-                sub,
-                regex.escape(lookup_value)
-            ), regex.IGNORECASE).match
+            pattern, text = _wildcards(lookup_value)
+            if pattern is None:  # Escapes only (e.g., `a~~` is the text `a~`).
+                pattern = regex.escape(text)
+            match = regex.compile(
+                r'^%s$' % pattern, regex.IGNORECASE
+            ).match
 
             # noinspection PyUnusedLocal
             def check(j, x, val, r):
